@@ -1,3 +1,94 @@
 package main
 
-func selftest(args []string) int { return 0 }
+import (
+	"flag"
+	"fmt"
+	"os"
+	"os/exec"
+	"strings"
+	"sync"
+	"time"
+)
+
+// selftest proves that a run is a pure function of (tree, property, lane,
+// seed, run index): every lane of every property is executed for the same
+// run indices in many fresh processes, at GOMAXPROCS 1, 4 and 16, alone and
+// 16 processes at once, and the per-run records (configuration, schedule
+// signature, steps, operations, outcome) must be identical everywhere.
+func selftest(args []string) int {
+	fs := flag.NewFlagSet("selftest", flag.ExitOnError)
+	runs := fs.Int("runs", 40, "run indices per lane")
+	reps := fs.Int("reps", 2, "repetitions per GOMAXPROCS setting")
+	seeds := fs.Int("seeds", 3, "seeds")
+	fs.Parse(args)
+	t0 := time.Now()
+	bad := 0
+	total := 0
+	for _, prop := range []string{"C10", "C11", "C19"} {
+		bt := buildFor(prop)
+		for _, lc := range lanes[prop] {
+			for seed := uint64(1); seed <= uint64(*seeds); seed++ {
+				type job struct {
+					gmp, rep int
+					out      string
+				}
+				var jobs []*job
+				for _, gmp := range []int{1, 4, 16} {
+					for rep := 0; rep < *reps; rep++ {
+						jobs = append(jobs, &job{gmp: gmp, rep: rep})
+					}
+				}
+				run := func(j *job) {
+					args := append(workerArgs(prop, "quick", lc, seed), "-from", fmt.Sprint(lc.Offset), "-to", fmt.Sprint(lc.Offset+uint64(*runs)))
+					cmd := exec.Command(bt.bins[lc.Race], args...)
+					cmd.Env = append(os.Environ(), gorace, fmt.Sprintf("GOMAXPROCS=%d", j.gmp))
+					out, err := cmd.Output()
+					if err != nil {
+						j.out = "ERROR " + err.Error()
+						return
+					}
+					// keep only the per-run records
+					var keep []string
+					for _, l := range strings.Split(string(out), "\n") {
+						if strings.HasPrefix(l, `{"t":"done"`) {
+							keep = append(keep, l)
+						}
+					}
+					j.out = strings.Join(keep, "\n")
+				}
+				// first half one process at a time, second half all at once
+				half := len(jobs) / 2
+				for _, j := range jobs[:half] {
+					run(j)
+				}
+				var wg sync.WaitGroup
+				for _, j := range jobs[half:] {
+					wg.Add(1)
+					go func(j *job) { defer wg.Done(); run(j) }(j)
+				}
+				wg.Wait()
+				for _, j := range jobs {
+					total++
+					if j.out != jobs[0].out || strings.HasPrefix(j.out, "ERROR") || j.out == "" {
+						bad++
+						fmt.Printf("NONDETERMINISM: %s lane %s seed %d GOMAXPROCS=%d rep %d differs from the first process\n", prop, lc.Name, seed, j.gmp, j.rep)
+						a, b := strings.Split(jobs[0].out, "\n"), strings.Split(j.out, "\n")
+						for i := 0; i < len(a) && i < len(b); i++ {
+							if a[i] != b[i] {
+								fmt.Printf("  first : %.300s\n  this  : %.300s\n", a[i], b[i])
+								break
+							}
+						}
+					}
+				}
+				fmt.Printf("selftest %s lane %-14s seed %d: %d processes x %d runs compared\n", prop, lc.Name, seed, len(jobs), *runs)
+			}
+		}
+		cleanupScratch()
+	}
+	fmt.Printf("selftest: %d processes, %d divergent, %.1fs\n", total, bad, time.Since(t0).Seconds())
+	if bad > 0 {
+		return 2
+	}
+	return 0
+}
